@@ -164,6 +164,10 @@ def ob_d(d: int, b: list[bool]) -> bool:
     S = CatSet(b)
     assume(S.has('DURATION') or S.has('PITCH'))     # selections that keep at least durations or pitches (property text)
     assume(S.has('HEADER') and S.has('SPINE_OPERATION'))   # keep the frame so that header lines can be compared (category filtering itself is C05)
+    # priming: the six unfiltered exports first (a later filtered export must not be served from anything they left behind)
+    prime = [Exporter().export_string(doc, ExportOptions(spine_types=heads, token_categories=set(TC), kern_type=e)) for e in ENC]
+    for i in range(4):
+        check(cells.parse_grid(prime[i]) == D.expected(ENC_NAMES[i]), lambda: f'unfiltered {ENC_NAMES[i]} export differs from the cell model')
     outs = []
     for e in ENC:
         outs.append(Exporter().export_string(doc, ExportOptions(spine_types=heads, token_categories=S, kern_type=e)))
@@ -206,7 +210,7 @@ def _shard_d(d, b):
     return d + len(POOL) * ((1 if b[TC.BARLINES.value - 1] else 0) + 2 * (1 if b[TC.DECORATION.value - 1] else 0))
 
 
-UNTRACE = [('kernpy.core.tokens', 'TokenCategoryHierarchyMapper.valid')]
+UNTRACE = [('kernpy.core.tokens', 'TokenCategoryHierarchyMapper.valid'), ('kernpy.core.exporter', 'Exporter.export_string')]
 
 OBLIGATIONS = [
     Ob(id='C04.a', fn=ob_a, title='tokens with symbolic sub-token texts under a symbolic category set: plain == extended - separators, basic == full - signifiers per note',
